@@ -24,8 +24,20 @@ Theorem C14_slots_interested : forall m rates new_opt m' fl,
   p_am_choked p' = false -> p_interested p' = true.
 Proof. exact rotation_slots_interested. Qed.
 
-(* the rest of the policy (no better-rated interested peer left choked, broadcast map = exactly the changes) is decided
-   on the real Session by the correspondence oracle policy14 for every rate order with ties; no Coq proof yet *)
+(* policy, second half: after a rotation over the rated peers (every rate list with distinct addresses, ties
+   included, any optimistic pick) no peer left choked although interested has a strictly better rate than a peer
+   holding a regular (non-optimistic) slot: the slots went to the interested peers in descending rate order *)
+Theorem C14_rate_order : forall m rates new_opt m' fl,
+  NoDup (map fst rates) -> change_conn_state m rates new_opt = Ok (m', fl) ->
+  forall a ra b rb pa pb, In (a, ra) rates -> In (b, rb) rates ->
+    pget (m_peers m') a = Some pa -> pget (m_peers m') b = Some pb ->
+    p_am_choked pa = true -> p_interested pa = true ->
+    p_am_choked pb = false -> p_optimistic pb = false -> ra <= rb.
+Proof. exact rotation_rate_order. Qed.
+
+(* the exactness of the broadcast map (exactly the changes, with the new value) is decided on the real Session by
+   the correspondence oracle policy14 for every rate order with ties; no Coq proof (it depends on
+   new_optimistic_peers choosing among peers we choke, which is not modelled) *)
 Example C14_nonvacuous :
   let p c i := mkpeer None [] None false c i true false None None in
   match change_conn_state (mkmgr [] [(1, p true true); (2, p false false); (3, p true true)] [] 0 false []) [(1, 5); (2, 9); (3, 5)] [] with
@@ -37,3 +49,4 @@ Proof. vm_compute. split; reflexivity. Qed.
 Print Assumptions C14_bitfield_bound.
 Print Assumptions C14_rotation_bound.
 Print Assumptions C14_slots_interested.
+Print Assumptions C14_rate_order.
